@@ -286,6 +286,13 @@ def cases(tier, shard, nshards):
             vals = operands[:n + 1]
             src = " ".join(str(vals[0]) if i == 0 else "%s %d" % (seq[i - 1], vals[i]) for i in range(n + 1))
             yield Case(src, {"fam": "C", "ops": list(seq), "vals": vals})
+            # the same chain as an underscore section with the hole at every operand position, applied to the missing operand:
+            # a section groups (and merges comparisons) exactly like the direct chain
+            for h in range(n + 1):
+                toks = [str(v) for v in vals]
+                toks[h] = "_"
+                sect = " ".join(toks[0] if i == 0 else "%s %s" % (seq[i - 1], toks[i]) for i in range(n + 1))
+                yield Case("(%s)(%d)" % (sect, vals[h]), {"fam": "C", "ops": list(seq), "vals": vals, "hole": h})
             if n >= 2 and any(o in CMP for o in seq):
                 vals2 = [-1, 2, 2, 5, 1][:n + 1]
                 src2 = " ".join(("(%d)" % vals2[0] if vals2[0] < 0 else str(vals2[0])) if i == 0 else "%s %d" % (seq[i - 1], vals2[i]) for i in range(n + 1))
@@ -327,6 +334,11 @@ def cases(tier, shard, nshards):
                 infix = " ".join(opd[0] if i == 0 else "%s %s" % (seq[i - 1], opd[i]) for i in range(n + 1))
                 meta = {"fam": "D", "ops": list(seq), "operands": opd}
                 yield Case([wrap % infix, wrap % _d_prefix(meta)], meta, iso=True)
+                for h in range(n + 1):
+                    toks = list(opd)
+                    toks[h] = "_"
+                    sect = " ".join(toks[0] if i == 0 else "%s %s" % (seq[i - 1], toks[i]) for i in range(n + 1))
+                    yield Case([wrap % ("(%s)(%s)" % (sect, opd[h])), wrap % _d_prefix(meta)], dict(meta, hole=h), iso=True)
 
 
 def _d_prefix(m):
